@@ -531,10 +531,10 @@ func (m *simManager) Add(r manager.Runnable) error {
 	m.runnables = append(m.runnables, r)
 	return nil
 }
-func (m *simManager) GetCache() cache.Cache       { return &simCache{k: m.k} }
-func (m *simManager) GetLogger() logr.Logger      { return m.log }
-func (m *simManager) GetClient() client.Client    { return m.k.Client() }
-func (m *simManager) GetScheme() *runtime.Scheme  { return m.k.run.scheme }
+func (m *simManager) GetCache() cache.Cache      { return &simCache{k: m.k} }
+func (m *simManager) GetLogger() logr.Logger     { return m.log }
+func (m *simManager) GetClient() client.Client   { return m.k.Client() }
+func (m *simManager) GetScheme() *runtime.Scheme { return m.k.run.scheme }
 func (m *simManager) GetControllerOptions() ctrlconfig.Controller {
 	return ctrlconfig.Controller{}
 }
@@ -573,10 +573,12 @@ func (i *simInformer) AddEventHandler(h toolscache.ResourceEventHandler) (toolsc
 func (i *simInformer) AddEventHandlerWithResyncPeriod(h toolscache.ResourceEventHandler, d time.Duration) (toolscache.ResourceEventHandlerRegistration, error) {
 	return i.AddEventHandler(h)
 }
-func (i *simInformer) RemoveEventHandler(toolscache.ResourceEventHandlerRegistration) error { return nil }
-func (i *simInformer) AddIndexers(toolscache.Indexers) error                                  { return nil }
-func (i *simInformer) HasSynced() bool                                                        { return true }
-func (i *simInformer) IsStopped() bool                                                        { return false }
+func (i *simInformer) RemoveEventHandler(toolscache.ResourceEventHandlerRegistration) error {
+	return nil
+}
+func (i *simInformer) AddIndexers(toolscache.Indexers) error { return nil }
+func (i *simInformer) HasSynced() bool                       { return true }
+func (i *simInformer) IsStopped() bool                       { return false }
 
 // invalidWorld reports a world that cannot exist in a cluster: an Endpoints
 // address whose target pod does not exist (pods precede their endpoints).
